@@ -3,8 +3,11 @@
 package fit
 
 import (
+	"encoding/binary"
 	"errors"
 	"io"
+
+	"github.com/tormoder/fit/dyncrc16"
 )
 
 // vReader is the io.Reader handed to the decoders: it serves data in chunks
@@ -64,4 +67,30 @@ func vHeader14(buf []byte, dataSize uint32) {
 	buf[4], buf[5], buf[6], buf[7] = byte(dataSize), byte(dataSize>>8), byte(dataSize>>16), byte(dataSize>>24)
 	buf[8], buf[9], buf[10], buf[11] = '.', 'F', 'I', 'T'
 	buf[12], buf[13] = 0, 0
+}
+
+// vFeed places data in the decoder's buffer as if it had just been read from
+// the stream, with the data-size limit exactly at its end.
+func vFeed(d *decoder, data []byte) {
+	copy(d.bytes.buf[:], data)
+	d.bytes.i, d.bytes.j = 0, len(data)
+	d.bytes.n = 0
+	d.bytes.limit = len(data)
+	d.crc = dyncrc16.New()
+}
+
+func vArch(big bool) binary.ByteOrder {
+	if big {
+		return be
+	}
+	return le
+}
+
+// vPut32 stores x in the given byte order.
+func vPut32(p []byte, x uint32, big bool) {
+	if big {
+		p[0], p[1], p[2], p[3] = byte(x>>24), byte(x>>16), byte(x>>8), byte(x)
+	} else {
+		p[0], p[1], p[2], p[3] = byte(x), byte(x>>8), byte(x>>16), byte(x>>24)
+	}
 }
